@@ -24,6 +24,7 @@ import (
 	"fmt"
 	"io"
 	"net"
+	"os"
 	"regexp"
 	"sort"
 	"strconv"
@@ -44,6 +45,7 @@ import (
 	"google.golang.org/protobuf/proto"
 	"google.golang.org/protobuf/types/known/anypb"
 
+	"istio.io/istio/pilot/pkg/config/kube/crd"
 	"istio.io/istio/pilot/pkg/model"
 	"istio.io/istio/pilot/pkg/xds"
 	xdsfake "istio.io/istio/pilot/test/xds"
@@ -387,36 +389,81 @@ func (c *client) snapshot() (map[string]map[string]string, map[string]map[string
 type site struct {
 	f       *failer
 	s       *xdsfake.FakeDiscoveryServer
-	clients []*client
+	ambient bool
+	clients *clientSet
 }
 
-func newSite(w world, debounce time.Duration) *site {
+// clientSet: the SotW clients (sidecars, router, in ambient cases the waypoint) and, in ambient
+// cases, the ztunnel-like delta client.
+type clientSet struct {
+	sotw  []*client
+	delta *deltaClient
+}
+
+func (cs *clientSet) stop() {
+	if cs == nil {
+		return
+	}
+	for _, c := range cs.sotw {
+		c.stop()
+	}
+	if cs.delta != nil {
+		cs.delta.stop()
+	}
+}
+
+// views: everything comparable, in a fixed order
+func (cs *clientSet) views() []*client {
+	out := append([]*client{}, cs.sotw...)
+	if cs.delta != nil {
+		out = append(out, cs.delta.snapshotAs())
+	}
+	return out
+}
+
+func newSite(w world, debounce time.Duration, ambient bool) *site {
 	f := &failer{}
-	s := xdsfake.NewFakeDiscoveryServer(f, xdsfake.FakeOptions{Configs: w.configs(), KubernetesObjects: kubeObjects(w),
+	cfgs := w.configs()
+	objs := kubeObjects(w)
+	if ambient {
+		infra, _, err := crd.ParseInputs(ambientInfraConfig)
+		if err != nil {
+			panic(err)
+		}
+		cfgs = append(cfgs, infra...)
+		objs = append(objs, ambientKubeObjects(w)...)
+	}
+	s := xdsfake.NewFakeDiscoveryServer(f, xdsfake.FakeOptions{Configs: cfgs, KubernetesObjects: objs,
 		MeshConfig: theMesh, DebounceTime: debounce})
 	quiet.Silence()
-	return &site{f: f, s: s}
+	return &site{f: f, s: s, ambient: ambient}
 }
 
-func (st *site) connectAll() []*client {
-	var cs []*client
-	for _, d := range proxyDefs {
+func (st *site) connectAll() *clientSet {
+	cs := &clientSet{}
+	defs := proxyDefs
+	if st.ambient {
+		defs = append(append([]proxyDef{}, proxyDefs...), waypointProxy)
+	}
+	for _, d := range defs {
 		c := newClient(d)
 		c.start(st.s)
-		cs = append(cs, c)
+		cs.sotw = append(cs.sotw, c)
+	}
+	if st.ambient {
+		cs.delta = newDeltaClient()
+		cs.delta.start(st.s)
 	}
 	return cs
 }
 
 func (st *site) close() {
-	for _, c := range st.clients {
-		c.stop()
-	}
+	st.clients.stop()
 	st.f.done()
 }
 
 // idle: nothing is pending anywhere between a config change and the clients.
-func (st *site) idle(cs []*client) bool {
+func (st *site) idle(sets []*clientSet) bool {
 	d := st.s.Discovery
 	if d.InboundUpdates.Load() != d.CommittedUpdates.Load() {
 		return false
@@ -427,8 +474,13 @@ func (st *site) idle(cs []*client) bool {
 	if p, q := xds.VerifC01QueueCounts(d); p != 0 || q != 0 {
 		return false
 	}
-	for _, c := range cs {
-		if c.queued.Load() != 0 {
+	for _, cs := range sets {
+		for _, c := range cs.sotw {
+			if c.queued.Load() != 0 {
+				return false
+			}
+		}
+		if cs.delta != nil && cs.delta.queued.Load() != 0 {
 			return false
 		}
 	}
@@ -437,18 +489,26 @@ func (st *site) idle(cs []*client) bool {
 
 // quiesce waits until the site has been idle, with no client activity, for `calm`; it gives up
 // after `limit` (returns false).
-func (st *site) quiesce(cs []*client, calm, limit time.Duration) bool {
+func (st *site) quiesce(sets []*clientSet, calm, limit time.Duration) bool {
+	if st.ambient {
+		calm *= 2 // the ambient index is a longer chain of asynchronous collections
+	}
 	deadline := time.Now().Add(limit)
 	var since time.Time
 	for time.Now().Before(deadline) {
 		now := time.Now()
-		ok := st.idle(cs)
+		ok := st.idle(sets)
 		if ok {
-			for _, c := range cs {
-				if !c.synced() {
-					ok = false
+			for _, cs := range sets {
+				for _, c := range cs.sotw {
+					if !c.synced() {
+						ok = false
+					}
+					if now.UnixNano()-c.last.Load() < int64(calm) {
+						ok = false
+					}
 				}
-				if now.UnixNano()-c.last.Load() < int64(calm) {
+				if cs.delta != nil && (!cs.delta.synced() || now.UnixNano()-cs.delta.last.Load() < int64(calm)) {
 					ok = false
 				}
 			}
@@ -471,6 +531,11 @@ func (st *site) quiesce(cs []*client, calm, limit time.Duration) bool {
 func (st *site) apply(op string, id string, variant int, cur world) error {
 	if isKube(id) {
 		return applyKube(st.s.KubeClient(), op, id, variant, cur)
+	}
+	if st.ambient {
+		if err := mirrorApply(st.s.KubeClient(), op, id, variant); err != nil {
+			return err
+		}
 	}
 	store := st.s.Store()
 	switch op {
@@ -498,6 +563,11 @@ type diffEntry struct {
 	Held, Want              string
 }
 
+func (d diffEntry) key() string { return d.Proxy + "/" + d.Type + "/" + d.Name }
+
+// soft: a difference of a classified kind (a recorded finding); the history goes on after it
+func (d diffEntry) soft() bool { return d.Kind == "stale-san" || d.Kind == "stale-mx" }
+
 func (d diffEntry) tok() string {
 	return fmt.Sprintf("%s/%s/%s:%s", d.Proxy, d.Type, wire.Enc(d.Name), d.Kind)
 }
@@ -505,7 +575,8 @@ func (d diffEntry) tok() string {
 // compare what the long-lived clients hold with what the reference clients hold, on the types
 // both subscribe to. Extra resources held for a named subscription that the reference never
 // asked for cannot occur (subscriptions are derived the same way from CDS/LDS).
-func compare(long, ref []*client) []diffEntry {
+func compare(longSet, refSet *clientSet) []diffEntry {
+	long, ref := longSet.views(), refSet.views()
 	var out []diffEntry
 	for i, c := range long {
 		h, ht := c.snapshot()
@@ -551,8 +622,16 @@ func classify(held, want string) string {
 	if h == w {
 		return "stale-san"
 	}
+	// `disable_mx` / `external`: cluster metadata derived from "all instances support HBONE"
+	h2 := mxFlag.ReplaceAllString(held, "")
+	w2 := mxFlag.ReplaceAllString(want, "")
+	if h2 == w2 {
+		return "stale-mx"
+	}
 	return "stale"
 }
+
+var mxFlag = regexp.MustCompile(`"(disable_mx|external)":true,?`)
 
 // firstDifference renders where two canonical JSON texts start to differ (for the replay file).
 func firstDifference(a, b string) string {
@@ -590,6 +669,7 @@ type caseDef struct {
 	Header   []string
 	Debounce time.Duration
 	Base     world
+	Ambient  bool
 	Steps    []step
 }
 
@@ -603,6 +683,7 @@ func parseCases(lines [][]string) []caseDef {
 				c.Debounce = time.Duration(atoi(f[3])) * time.Millisecond
 				c.Base = parseWorld(f[4])
 			}
+			c.Ambient = len(f) >= 6 && f[5] == "ambient"
 			out = append(out, c)
 		case "step":
 			if len(out) > 0 && len(f) >= 4 {
@@ -626,26 +707,27 @@ const (
 // settleAndCompare waits for quiescence and compares the long-lived clients with reference clients
 // produced by mkRef; a difference must persist (re-compared against fresh references after waiting
 // `patience` in a fully quiescent system) to be reported.
-func settleAndCompare(st *site, refSite *site, long []*client) ([]diffEntry, string) {
+func settleAndCompare(st *site, refSite *site, long *clientSet, ignore map[string]bool) ([]diffEntry, string) {
 	attempt := func() ([]diffEntry, string) {
-		if !st.quiesce(long, calmTime, settleTime) {
+		if !st.quiesce([]*clientSet{long}, calmTime, settleTime) {
 			return nil, "no-quiescence"
 		}
 		ref := refSite.connectAll()
-		defer func() {
-			for _, c := range ref {
-				c.stop()
-			}
-		}()
-		all := append(append([]*client{}, long...), ref...)
+		defer ref.stop()
 		if refSite != st {
-			if !refSite.quiesce(ref, calmTime, settleTime) {
+			if !refSite.quiesce([]*clientSet{ref}, calmTime, settleTime) {
 				return nil, "no-quiescence-ref"
 			}
-		} else if !st.quiesce(all, calmTime, settleTime) {
+		} else if !st.quiesce([]*clientSet{long, ref}, calmTime, settleTime) {
 			return nil, "no-quiescence-ref"
 		}
-		return compare(long, ref), ""
+		var out []diffEntry
+		for _, x := range compare(long, ref) {
+			if !ignore[x.key()] {
+				out = append(out, x)
+			}
+		}
+		return out, ""
 	}
 	d, e := attempt()
 	if e != "" || len(d) == 0 {
@@ -669,7 +751,10 @@ type caseResult struct {
 }
 
 func runCase(c caseDef) caseResult {
-	st := newSite(c.Base, c.Debounce)
+	if c.Ambient && !ambientEnabled() {
+		return caseResult{Verdict: "FAIL harness-misconfigured ambient-case-needs-PILOT_ENABLE_AMBIENT=true"}
+	}
+	st := newSite(c.Base, c.Debounce, c.Ambient)
 	defer st.close()
 	long := st.connectAll()
 	st.clients = long
@@ -688,22 +773,57 @@ func runCase(c caseDef) caseResult {
 		return caseResult{Verdict: fmt.Sprintf("FAIL %s %s after-step=%d n=%d world=%s", clause, strings.Join(toks, ","), after, len(d), w.tok()),
 			Detail: detail}
 	}
+	// differences of a classified kind (recorded findings) do not end the history: they are remembered, ignored from
+	// then on, and reported at the end unless something else fails
+	ignore := map[string]bool{}
+	var softVerdict *caseResult
+	check := func(ref *site, clause string, after int) *caseResult {
+		d, e := settleAndCompare(st, ref, long, ignore)
+		if e != "" {
+			return &caseResult{Verdict: fmt.Sprintf("FAIL %s step=%d", e, after)}
+		}
+		if len(d) == 0 {
+			return nil
+		}
+		hard := false
+		for _, x := range d {
+			if !x.soft() {
+				hard = true
+			}
+		}
+		r := report(clause, after, d)
+		if hard {
+			return &r
+		}
+		if softVerdict == nil {
+			softVerdict = &r
+		}
+		for _, x := range d {
+			ignore[x.key()] = true
+		}
+		return nil
+	}
 	// the long-lived clients must be in sync before the history starts
-	if d, e := settleAndCompare(st, st, long); e != "" {
-		return caseResult{Verdict: "FAIL " + e + " initial"}
-	} else if len(d) > 0 {
-		return report("initial-sync", 0, d)
+	if r := check(st, "initial-sync", 0); r != nil {
+		return *r
 	}
 	burst := 0
 	pushes, skips := 0, 0
 	respCount := func() map[string]int {
 		m := map[string]int{}
-		for _, cl := range long {
+		for _, cl := range long.sotw {
 			cl.mu.Lock()
 			for t, n := range cl.resps {
 				m[cl.def.Name+"/"+t] = n
 			}
 			cl.mu.Unlock()
+		}
+		if long.delta != nil {
+			long.delta.mu.Lock()
+			for t, n := range long.delta.resps {
+				m["ztunnel/"+t] = n
+			}
+			long.delta.mu.Unlock()
 		}
 		return m
 	}
@@ -726,13 +846,11 @@ func runCase(c caseDef) caseResult {
 			continue
 		}
 		burst = 0
-		if d, e := settleAndCompare(st, st, long); e != "" {
-			return caseResult{Verdict: fmt.Sprintf("FAIL %s step=%d", e, i+1)}
-		} else if len(d) > 0 {
-			return report("stale-vs-fresh-client", i+1, d)
+		if r := check(st, "stale-vs-fresh-client", i+1); r != nil {
+			return *r
 		}
 		after := respCount()
-		for _, cl := range long {
+		for _, cl := range long.views() {
 			for _, t := range cl.def.Types {
 				if after[cl.def.Name+"/"+t] > before[cl.def.Name+"/"+t] {
 					pushes++
@@ -744,19 +862,37 @@ func runCase(c caseDef) caseResult {
 		before = after
 	}
 	// second server, cold-started on the final state
-	cold := newSite(w, 0)
+	cold := newSite(w, 0, c.Ambient)
 	defer cold.close()
-	if d, e := settleAndCompare(st, cold, long); e != "" {
-		return caseResult{Verdict: "FAIL " + e + " cold"}
-	} else if len(d) > 0 {
-		return report("stale-vs-cold-start", len(c.Steps), d)
+	if r := check(cold, "stale-vs-cold-start", len(c.Steps)); r != nil {
+		return *r
+	}
+	if os.Getenv("VERIF_C01_DEBUG") != "" {
+		for _, cl := range long.views() {
+			h, _ := cl.snapshot()
+			var parts []string
+			for _, t := range cl.def.Types {
+				parts = append(parts, fmt.Sprintf("%s=%d", t, len(h[t])))
+			}
+			fmt.Fprintln(os.Stderr, "held", cl.def.Name, strings.Join(parts, " "))
+		}
+	}
+	if softVerdict != nil {
+		return *softVerdict
 	}
 	return caseResult{Verdict: fmt.Sprintf("OK steps=%d pushed=%d skipped=%d", len(c.Steps), pushes, skips)}
 }
 
 // ---------------------------------------------------------------- gen / oracle
 
-func genConverge(seed uint64, n int, out string) {
+func genConverge(seed uint64, n int, out string) { genConvergeMode(seed, n, out, false) }
+
+// genConvergeAmbient: histories over the classic grammar plus the ambient objects (waypoint
+// attachment, ambient workloads, waypoint / ztunnel policies), run with a waypoint proxy and a
+// ztunnel-like delta client in addition to the sidecars and the router.
+func genConvergeAmbient(seed uint64, n int, out string) { genConvergeMode(seed*31+5, n, out, true) }
+
+func genConvergeMode(seed uint64, n int, out string, ambient bool) {
 	r := wire.NewRng(seed*104729 + 7)
 	o := wire.Create(out)
 	defer o.Close()
@@ -779,13 +915,24 @@ func genConverge(seed uint64, n int, out string) {
 				w[d.ID] = cr.Intn(len(d.Variants))
 			}
 		}
+		if ambient {
+			for _, d := range ambientUniverse {
+				if cr.Chance(3, 4) {
+					w[d.ID] = cr.Intn(len(d.Variants))
+				}
+			}
+		}
 		// the debouncer is never off: with 0 ms istiod pushes in the same instant an event arrives and
 		// races with its own derived indexes (see notes/C01.md, "unreproduced differences")
 		deb := 10
 		if cr.Chance(1, 3) {
 			deb = 25
 		}
-		o.Line("case", strconv.Itoa(c), "converge", strconv.Itoa(deb), w.tok())
+		if ambient {
+			o.Line("case", strconv.Itoa(c), "converge", strconv.Itoa(deb), w.tok(), "ambient")
+		} else {
+			o.Line("case", strconv.Itoa(c), "converge", strconv.Itoa(deb), w.tok())
+		}
 		cur := w.clone()
 		steps := 2 + cr.Intn(4)
 		inBurst := 0
@@ -797,7 +944,10 @@ func genConverge(seed uint64, n int, out string) {
 				inBurst = 1
 			}
 			id, nvar := "", 0
-			if cr.Chance(1, 5) {
+			if ambient && cr.Chance(1, 2) {
+				d := wire.Pick(cr, ambientUniverse)
+				id, nvar = d.ID, len(d.Variants)
+			} else if cr.Chance(1, 5) {
 				d := wire.Pick(cr, kubeUniverse)
 				id, nvar = d.ID, len(d.Variants)
 			} else {
